@@ -8,7 +8,7 @@ from common import *
 import prio_model as pm
 from pure import parse_violations
 
-INV_ALL = ["TypeOK", "C01_Capacity", "C01_Round", "C01_Conservation", "C02_Order", "C07_Closed", "C15_FailSafe",
+INV_ALL = ["TypeOK", "C01_Capacity", "C01_Round", "C01_Conservation", "C01_AbsInd", "C02_Order", "C07_Closed", "C15_FailSafe",
            "C15_ClosedAfterRelease", "C06_NoIdleBlock", "C05_Share", "C05_Full"]
 
 
@@ -280,8 +280,35 @@ def models_v1_basic(v, sc, binary):
         v1_model(v, sc, binary, mk1("v1graces", [2, 1], {2: 1, 1: 2}, 2, "rate", 2, 1, 1, graceful=True, stop=True))
 
 
+def capind_C01(v, sc, binary):
+    """U5: the capacity accounting as a counter abstraction with SYMBOLIC H and any divider result safeDivide accepts (CapInd.tla):
+    Apalache discharges Init => IndInv, IndInv /\\ Next => IndInv', IndInv => Capacity; vacuity twin (Send without tactic-1) must fail"""
+    sub = os.path.join(sc, "capind")
+    os.makedirs(sub, exist_ok=True)
+    stage_specs(sub)
+    src = open(os.path.join(sub, "CapInd.tla")).read()
+    bad = src.replace("MODULE CapInd", "MODULE CapBad").replace("/\\ tactic' = [tactic EXCEPT ![carry] = @ - 1]", "/\\ tactic' = tactic")
+    if bad.count("tactic' = tactic") != 1:
+        raise Inconclusive("cannot derive the vacuity twin of CapInd.tla")
+    open(os.path.join(sub, "CapBad.tla"), "w").write(bad)
+    jobs = [("CapInd.tla", ["--init=IndInit", "--inv=IndInv", "--length=1"], False), ("CapInd.tla", ["--init=IndInit", "--inv=Capacity", "--length=0"], False),
+            ("CapBad.tla", ["--init=IndInit", "--inv=IndInv", "--length=1"], True)]
+    if v.tier == "thorough":
+        jobs.insert(0, ("CapInd.tla", ["--init=Init", "--inv=IndInv", "--length=0"], False))
+    res = {}
+    for mod, args, expect_error in jobs:
+        rc, out, wall = apalache(sub, mod, args, timeout=600)
+        err = "The outcome is: Error" in out
+        if not err and "The outcome is: NoError" not in out:
+            raise Inconclusive("apalache failed on %s %s\n%s" % (mod, args, out[-2000:]))
+        if err != expect_error:
+            raise Inconclusive("CapInd obligation %s %s: expected %s" % (mod, args, "a counter-example" if expect_error else "NoError"))
+        res["%s %s" % (mod, " ".join(args))] = "counter-example (expected, vacuity twin)" if err else "NoError (%.0fs)" % wall
+    v.cov["apalache_inductive_capacity"] = res
+
+
 def check_C01(tier):
-    return v2_property("C01", tier, cfgs_basic(tier), "stall", free=True, v1kinds=("dyn", "grace", "stop"), v1models=models_v1_basic, simple=True,
+    return v2_property("C01", tier, cfgs_basic(tier), "stall", free=True, v1kinds=("dyn", "grace", "stop"), v1models=models_v1_basic, simple=True, extra=capind_C01,
                        nontrivial=lambda t: t["Q"] is not None and t["Q"] == t["reset"]["H"],
                        rule="transition-cover paths of the TLC state graph of each bounded PrioV2 configuration (real divider table), replayed "
                             "gated into the real v2 scheduler, then the stall continuation (inputs kept full, everything received, nothing "
@@ -514,12 +541,12 @@ def spin_verdict(sub):
     return None
 
 
-def record_v1(binary, sc, cfg, runs, timeout=900):
+def record_v1(binary, sc, cfg, runs, timeout=900, only=0):
     sub = os.path.join(sc, "r-" + cfg["name"])
     os.makedirs(sub, exist_ok=True)
     cfgp = os.path.join(sub, "cfg.json")
     json.dump(cfg, open(cfgp, "w"))
-    rc, out, wall = run_test(binary, "TestRecordV1$", env=dict(CFG=cfgp, OUT_DIR=sub, V1_RUNS=runs), timeout=timeout)
+    rc, out, wall = run_test(binary, "TestRecordV1$", env=dict(CFG=cfgp, OUT_DIR=sub, V1_RUNS=runs, ONLY_RUN=only), timeout=timeout)
     spin = None
     if rc == 3:
         spin = spin_verdict(sub)
@@ -557,12 +584,12 @@ def simple_configs(tier):
             mks("simple1fair", 1, [3, 2, 1], 4, "fair", 1, 4, stop=True, graceful=True)]
 
 
-def record_simple(binary, sc, cfg, runs, timeout=900):
+def record_simple(binary, sc, cfg, runs, timeout=900, only=0):
     sub = os.path.join(sc, "s-" + cfg["name"])
     os.makedirs(sub, exist_ok=True)
     cfgp = os.path.join(sub, "cfg.json")
     json.dump(cfg, open(cfgp, "w"))
-    rc, out, wall = run_test(binary, "TestRecordSimple$", env=dict(CFG=cfgp, OUT_DIR=sub, SIMPLE_RUNS=runs), timeout=timeout)
+    rc, out, wall = run_test(binary, "TestRecordSimple$", env=dict(CFG=cfgp, OUT_DIR=sub, SIMPLE_RUNS=runs, ONLY_RUN=only), timeout=timeout)
     f = os.path.join(sub, "simple_events.ndjson")
     spin = spin_verdict(sub) if rc == 3 else None
     if "RECORDED simple" not in out and not spin:
@@ -696,3 +723,38 @@ def check_C17(tier):
                             "call returned (harness watches len() / parked writers), capacity and exactly-once across the change, GracefulStop returns. "
                             "non-trivial = a call returned and >= 2 deliveries; distinct by events",
                        models=models_C17)
+
+
+def all_named_configs():
+    out = {}
+    for tier in ("quick", "thorough"):
+        for kind in ("stop", "dyn", "grace", "fault", "alone"):
+            for c in v1_configs(kind, tier):
+                out[c["name"]] = ("v1", c)
+        for c in simple_configs(tier):
+            out[c["name"]] = ("simple", c)
+    return out
+
+
+def replay_run(pid, obj):
+    """re-execute one recorded v1 / simplified-discipline run (same configuration, run number and seed) on the current tree"""
+    r = obj["replay"]
+    kind, cfg = all_named_configs().get(r["cfg"], (None, None))
+    if cfg is None:
+        print("unknown configuration", r["cfg"])
+        return 2
+    v = Verdict(pid, "quick", "model_checking")
+    with Scratch("replay") as sc:
+        binary = os.path.join(sc, "prioh.test")
+        build_test("prioh", binary)
+        os.environ["VERIF_SEED"] = str((int(r["seed"]) - int(r["run"])) // 100003 // (7919 if kind == "v1" else 7927)) if r.get("seed") else os.environ.get("VERIF_SEED", "1")
+        rec = (record_v1 if kind == "v1" else record_simple)(binary, sc, cfg, int(r["run"]), only=int(r["run"]))
+        if rec.get("spin"):
+            print("VIOLATION property=%s replay=(reproduced: spin)" % pid)
+            return 1
+        viol, events = run_monitor(sc, [rec["obs"]], v)
+        print("replayed run %s of %s: monitor=%s" % (r["run"], r["cfg"], {k: len(s) for k, s in viol.items()}))
+        if pid in viol:
+            print("VIOLATION property=%s replay=(reproduced)" % pid)
+            return 1
+    return 0
